@@ -367,6 +367,9 @@ func (vc *VC) verifyFunction(fn *ssa.Function) (rep *FuncReport) {
 		if !has {
 			continue
 		}
+		if fc.ThoroughOnly[sc] && vc.eng.tier != "thorough" {
+			continue
+		}
 		vc.verifyRun(fn, fc, key, sc, rep)
 	}
 	return rep
